@@ -156,29 +156,72 @@ fn validator_bodies(cx: &mut Ctx) {
         cx.fail(rule, &format!("{}/validate_arguments/exits", rule), &f.loc(va), "validate_arguments has unexpected exits");
     }
     let Some(vp) = f.free_fns("validate_pos_params").into_iter().next() else { return cx.anchor_missing(rule, "validate_pos_params") };
-    let t = sm::tsx(&vp.block);
-    let scan = "first_invalid=posonlyargs.iter().chain(args.iter()).skip_while(|arg|arg.default.is_none()).skip_while(|arg|arg.default.is_some()).next();";
-    if t.contains("let(posonlyargs,args)=args;") && t.contains(scan) && t.matches(".skip_while(").count() == 2 {
-        cx.ok(rule, "validate_pos_params: one scan over posonlyargs ++ args (no-default run, default run, nothing after)");
-    } else {
-        cx.fail(rule, &format!("{}/validate_pos_params/scan", rule), &f.loc(vp), "validate_pos_params does not scan posonlyargs.iter().chain(args.iter()) once with skip_while(no default).skip_while(default).next(): a default before `/` followed by a non-default after it (or similar) escapes");
-    }
-    let vp_exits = sm::exits(&vp.block);
-    let err_exits: Vec<&sm::Exit> = vp_exits.iter().filter(|x| x.result.starts_with("Err(")).collect();
-    let ok_exits: Vec<&sm::Exit> = vp_exits.iter().filter(|x| x.result == "Ok(())").collect();
-    let err_ok = err_exits.len() == 1 && {
-        let x = err_exits[0];
-        // under `first_invalid ~ Some(v)`, at v.def.range.start()
-        let bound: Option<String> = x.conds.iter().find_map(|c| c.strip_prefix("first_invalid~Some(").and_then(|r| r.strip_suffix(')')).map(|v| v.to_string()));
-        match bound {
-            Some(v) => x.result.contains("LexicalErrorType::DefaultArgumentError") && x.result.contains(&format!("location:{}.def.range.start()", v)),
-            None => false,
+    // interpreted over every pair of (positional-only, positional) parameter lists with up to 3 parameters each,
+    // each parameter with or without a default: the first parameter without a default that follows one with a
+    // default is rejected with DefaultArgumentError at its own start; otherwise Ok(())
+    {
+        use crate::eval::{Machine, V};
+        let methods = |recv: &V, name: &str, _a: &[V]| -> Option<V> {
+            match (recv, name) {
+                (V::Rec(m), "start") => m.get("start").cloned(),
+                _ => None,
+            }
+        };
+        let param = |id: i128, has_default: bool| -> V {
+            let mut range = BTreeMap::new();
+            range.insert("start".to_string(), V::Int(id));
+            let mut def = BTreeMap::new();
+            def.insert("range".to_string(), V::Rec(range));
+            let mut p = BTreeMap::new();
+            p.insert("def".to_string(), V::Rec(def));
+            p.insert("default".to_string(), V::Opt(if has_default { Some(Box::new(V::Unit)) } else { None }));
+            V::Rec(p)
+        };
+        let pname = vp.sig.inputs.first().and_then(|a| if let syn::FnArg::Typed(pt) = a { Some(sm::tsc(&pt.pat)) } else { None }).unwrap_or_else(|| "args".into());
+        let mut bad = vec![];
+        let mut n = 0;
+        for la in 0..=3usize {
+            for lb in 0..=3usize {
+                for mask in 0..(1u32 << (la + lb)) {
+                    let flags: Vec<bool> = (0..la + lb).map(|i| mask & (1 << i) != 0).collect();
+                    let all: Vec<V> = flags.iter().enumerate().map(|(i, d)| param(100 + i as i128, *d)).collect();
+                    let want: Option<i128> = {
+                        let mut seen = false;
+                        let mut w = None;
+                        for (i, d) in flags.iter().enumerate() {
+                            if *d {
+                                seen = true;
+                            } else if seen {
+                                w = Some(100 + i as i128);
+                                break;
+                            }
+                        }
+                        w
+                    };
+                    let mut m = Machine::new(&methods);
+                    m.set(&pname, V::Tuple(vec![V::List(all[..la].to_vec()), V::List(all[la..].to_vec())]));
+                    n += 1;
+                    let got = m.eval_fn_body(&vp.block);
+                    let ok = match (&got, want) {
+                        (Ok(V::Unit), None) => true,
+                        (Ok(V::Tuple(t)), None) if t.is_empty() => true,
+                        (Ok(V::Enum(e)), Some(w)) => e.starts_with("Err(") && e.contains("DefaultArgumentError") && e.contains(&format!("location:Int({})", w)),
+                        _ => false,
+                    };
+                    if !ok && bad.len() < 4 {
+                        bad.push(format!("defaults {:?} split {}+{} -> {:?} (expected {})", flags, la, lb, got, want.map_or("Ok(())".to_string(), |w| format!("DefaultArgumentError at parameter {}", w - 100))));
+                    }
+                    if !ok && bad.len() >= 4 {
+                        break;
+                    }
+                }
+            }
         }
-    };
-    if err_ok && !ok_exits.is_empty() {
-        cx.ok(rule, "validate_pos_params: offending parameter => Err(DefaultArgumentError) at its start");
-    } else {
-        cx.fail(rule, &format!("{}/validate_pos_params/error", rule), &f.loc(vp), "validate_pos_params does not return DefaultArgumentError at the offending parameter");
+        if bad.is_empty() {
+            cx.ok(rule, &format!("validate_pos_params interpreted on {} parameter-list shapes: the first non-default parameter after a default one (across `/`) is rejected with DefaultArgumentError at its start", n));
+        } else {
+            cx.fail(rule, &format!("{}/validate_pos_params/scan", rule), &f.loc(vp), &format!("validate_pos_params does not reject exactly the first non-default parameter that follows a default one (positional-only and positional parameters form one sequence): {}", bad.join("; ")));
+        }
     }
 }
 
